@@ -270,6 +270,16 @@ def check_decode(ctx: Ctx, case: dict) -> None:
         require(h1 == h2 == h3, lambda: (
             f"Hardness of the same instance: {h1!r}, {h2!r} (same object), "
             f"{h3!r} (new object)"))
+        # the same objective object is also used for other instances in
+        # between (the template carries a similar name): still the same value
+        ht = sut("Hardness.evaluate(template)", hd.evaluate, template)
+        h4 = sut("Hardness.evaluate", hd.evaluate, y)
+        ht2 = sut("Hardness.evaluate(template)", Hardness(
+            max_fes=mf, n_runs=nr).evaluate, template)
+        require(h4 == h1 and ht == ht2, lambda: (
+            f"Hardness depends on what the objective object evaluated "
+            f"before: generated instance {h1!r} then {h4!r} (after the "
+            f"template), template {ht!r} vs {ht2!r} on a new object"))
         eh = sut("ErrorsAndHardness.evaluate", ErrorsAndHardness(
             space, max_fes=mf, n_runs=nr).evaluate, y)
         require(isinstance(eh, float) and 0.0 <= eh <= 1.0,
